@@ -90,8 +90,16 @@ class Ctx:
         src = os.path.join(VERIF, name)
         if self.repo == "/repo":
             # keep go.sum in step with the repository's
+            # (atomically, and only when it differs: checks may run concurrently and a go build of another
+            # check must never read a half-written go.sum)
             try:
-                shutil.copyfile(os.path.join(self.repo, "go.sum"), os.path.join(src, "go.sum"))
+                want = open(os.path.join(self.repo, "go.sum"), "rb").read()
+                dst = os.path.join(src, "go.sum")
+                have = open(dst, "rb").read() if os.path.exists(dst) else None
+                if have != want:
+                    tmp = "%s.%d.tmp" % (dst, os.getpid())
+                    open(tmp, "wb").write(want)
+                    os.replace(tmp, dst)
             except OSError:
                 pass
             return src
